@@ -188,6 +188,10 @@ func (d *Data) handleSupervoxelSplits(ctx *datastore.VersionedCtx, w http.Respon
 func (d *Data) handleBlocks(ctx *datastore.VersionedCtx, w http.ResponseWriter, r *http.Request, parts []string) {
 	// GET <api URL>/node/<UUID>/<data name>/blocks/<size>/<offset>[?compression=...]
 	// POST <api URL>/node/<UUID>/<data name>/blocks[?compression=...]
+	if action := strings.ToLower(r.Method); action != "get" && action != "post" {
+		server.BadRequest(w, r, "blocks endpoint only supports GET and POST HTTP verbs")
+		return
+	}
 	timedLog := dvid.NewTimeLog()
 
 	queryStrings := r.URL.Query()
@@ -247,6 +251,10 @@ func (d *Data) handleBlocks(ctx *datastore.VersionedCtx, w http.ResponseWriter, 
 
 func (d *Data) handleIngest(ctx *datastore.VersionedCtx, w http.ResponseWriter, r *http.Request) {
 	// POST <api URL>/node/<UUID>/<data name>/ingest-supervoxels[?scale=...]
+	if strings.ToLower(r.Method) != "post" {
+		server.BadRequest(w, r, "ingest-supervoxels endpoint only supports POST HTTP verb")
+		return
+	}
 	timedLog := dvid.NewTimeLog()
 
 	queryStrings := r.URL.Query()
@@ -862,6 +870,10 @@ func (d *Data) handlePseudocolor(ctx *datastore.VersionedCtx, w http.ResponseWri
 func (d *Data) handleDataRequest(ctx *datastore.VersionedCtx, w http.ResponseWriter, r *http.Request, parts []string) {
 	if len(parts) < 7 {
 		server.BadRequest(w, r, "'%s' must be followed by shape/size/offset", parts[3])
+		return
+	}
+	if action := strings.ToLower(r.Method); action != "get" && action != "post" {
+		server.BadRequest(w, r, "raw and isotropic endpoints only support GET and POST HTTP verbs")
 		return
 	}
 	timedLog := dvid.NewTimeLog()
